@@ -73,6 +73,12 @@ def _assigned_names(stmts_):
         for n in ast.walk(st):
             if isinstance(n, ast.Name) and isinstance(n.ctx, (ast.Store, ast.Del)):
                 out.add(n.id)
+            elif isinstance(n, ast.alias) and n.name != "*":
+                out.add((n.asname or n.name).split(".")[0])
+            elif isinstance(n, (ast.FunctionDef, ast.AsyncFunctionDef, ast.ClassDef)):
+                out.add(n.name)
+            elif isinstance(n, ast.ExceptHandler) and n.name:
+                out.add(n.name)
             elif isinstance(n, (ast.Assign, ast.AugAssign)):
                 for t in (n.targets if isinstance(n, ast.Assign) else [n.target]):
                     attr = False
@@ -118,6 +124,13 @@ def _mutated_names(st):
                     t = t.value
                 if isinstance(t, ast.Name) and attr and t.id not in ("self", "cls"):
                     out.add(t.id)
+        elif isinstance(n, (ast.Subscript, ast.Attribute)) and isinstance(n.ctx, (ast.Store, ast.Del)):
+            # a store wherever it stands: the target of a for / with / comprehension / annotated assignment / walrus / del
+            t = n
+            while isinstance(t, (ast.Subscript, ast.Attribute)):
+                t = t.value
+            if isinstance(t, ast.Name) and t.id not in ("self", "cls"):
+                out.add(t.id)
     return out
 
 
@@ -240,11 +253,13 @@ def fold(e):
                     and all(_const_equal(_symconst(n.slice), _symconst(k)) is not None for k in n.value.keys):
                 # a repeated key keeps its LAST value
                 hit = [v for k, v in zip(n.value.keys, n.value.values) if _const_equal(_symconst(k), _symconst(n.slice))]
-                if hit:
+                if hit and not any(isinstance(y, (ast.Call, ast.Await, ast.NamedExpr)) for v in n.value.values if v is not hit[-1] for y in ast.walk(v)):
                     return hit[-1]
             if isinstance(n.ctx, ast.Load) and isinstance(n.value, (ast.Tuple, ast.List)) and isinstance(n.slice, ast.Constant) \
                     and isinstance(n.slice.value, int) and not isinstance(n.slice.value, bool) and -len(n.value.elts) <= n.slice.value < len(n.value.elts) \
-                    and not any(isinstance(x, ast.Starred) for x in n.value.elts):
+                    and not any(isinstance(x, ast.Starred) for x in n.value.elts) \
+                    and not any(isinstance(y, (ast.Call, ast.Await, ast.Yield, ast.YieldFrom, ast.NamedExpr)) for k_, x in enumerate(n.value.elts)
+                                if k_ != n.slice.value % len(n.value.elts) for y in ast.walk(x)):
                 return n.value.elts[n.slice.value]
             return n
 
@@ -342,7 +357,16 @@ _UFUNCS2 = {"add", "subtract", "multiply", "divide", "true_divide", "floor_divid
             "not_equal", "greater_equal", "less_equal", "matmul", "dot", "fmax", "fmin", "hypot", "arctan2", "left_shift", "right_shift",
             "clip", "take", "choose", "compress"}
 _UFUNCS1 = {"abs", "absolute", "negative", "sqrt", "square", "exp", "log", "sin", "cos", "tan", "floor", "ceil", "rint", "round",
-            "around", "sign", "invert", "logical_not", "isnan", "isfinite", "cumsum", "cumprod", "conjugate", "reciprocal", "copyto"}
+            "around", "sign", "invert", "logical_not", "isnan", "isfinite", "conjugate", "reciprocal", "copyto", "fix", "isneginf", "isposinf",
+            "positive", "exp2", "expm1", "log2", "log10", "log1p", "arcsin", "arccos", "arctan", "sinh", "cosh", "tanh", "deg2rad", "rad2deg",
+            "trunc", "fabs", "signbit", "spacing", "cbrt", "bitwise_not", "isinf", "conj"}
+# position of `out` when it is given positionally to numpy's reductions / accumulations / selections (function form)
+_NP_OUT_POS = {"sum": 3, "prod": 3, "mean": 3, "std": 3, "var": 3, "cumsum": 3, "cumprod": 3, "nansum": 3, "nanprod": 3, "nanmean": 3, "nancumsum": 3,
+               "nancumprod": 3, "nanstd": 3, "nanvar": 3, "min": 2, "max": 2, "amin": 2, "amax": 2, "nanmin": 2, "nanmax": 2, "any": 2, "all": 2,
+               "argmin": 2, "argmax": 2, "nanargmin": 2, "nanargmax": 2, "round": 2, "around": 2, "round_": 2, "ptp": 2, "trace": 5, "median": 2,
+               "nanmedian": 2, "percentile": 3, "quantile": 3, "nanpercentile": 3, "nanquantile": 3, "accumulate": 3, "reduce": 3, "reduceat": 4,
+               "concatenate": 2, "stack": 2, "choose": 2, "compress": 3, "take": 3, "clip": 3, "dot": 2, "divmod": 2, "modf": 1, "frexp": 1,
+               "outer": 2, "einsum": 99, "cumulative_sum": 99, "cumulative_prod": 99}
 
 
 _PLAIN_MANAGERS = {"open", "warnings.catch_warnings", "np.errstate", "numpy.errstate", "NamedTemporaryFile", "tempfile.NamedTemporaryFile",
@@ -366,7 +390,10 @@ _METHOD_OUT_POSITION = {"clip": 2, "take": 2, "choose": 1, "compress": 2, "sum":
 
 
 def _is_immutable(e):
-    return isinstance(e, (ast.Constant, ast.Compare, ast.JoinedStr)) or isinstance(e, ast.UnaryOp) and isinstance(e.operand, ast.Constant) \
+    if isinstance(e, ast.Compare):
+        # `a is b`, `k in d` give a bool; `a != b` of arrays gives an array that `m &= ..` changes in place
+        return all(isinstance(o, (ast.Is, ast.IsNot, ast.In, ast.NotIn)) for o in e.ops)
+    return isinstance(e, (ast.Constant, ast.JoinedStr)) or isinstance(e, ast.UnaryOp) and isinstance(e.operand, ast.Constant) \
         or _alias.named_constant(e) or isinstance(e, ast.Tuple) and all(_is_immutable(x) for x in e.elts)
 
 
@@ -449,6 +476,29 @@ class _PoisonEnv(dict):
 
     def __contains__(self, k):
         return True
+
+
+_KNOWN_CALLEES = None
+
+
+def _unknown_callee(c_):
+    """a callee (by the name normalize._callee_name remembers: `f`, `np.f`, `.method`) that no reference source calls"""
+    global _KNOWN_CALLEES
+    from . import normalize, localnames
+    if _KNOWN_CALLEES is None:
+        known = set()
+        for rel_, ent in localnames.table().items():
+            if isinstance(ent, dict) and isinstance(ent.get("__inventory__"), dict):
+                known.update(ent["__inventory__"].get("call_positional", {}))
+        _KNOWN_CALLEES = known
+    if not _KNOWN_CALLEES:
+        return False
+    nm = normalize._callee_name(c_)
+    if nm is None:
+        return True
+    if isinstance(c_.func, ast.Name) and (nm in PURE_CALLEES or nm[:1].isupper()):
+        return False
+    return nm not in _KNOWN_CALLEES
 
 
 PURE_CALLEES = set()      # names of functions known to change none of their arguments (set by rules from effects.param_mutations)
@@ -563,6 +613,8 @@ def _summarize(func, mutators=None, env0=None):
                 root = root.value
             if not (isinstance(root, ast.Name) and root.id in _MODULE_NAMES):
                 touched.extend(names_of(base))
+        if not isinstance(c_.func, (ast.Name, ast.Attribute)):
+            touched.extend(names_of(c_.func))
         for o in _out_arguments(c_):
             touched.extend(names_of(o))
         if cn in mutators:
@@ -611,6 +663,14 @@ def _summarize(func, mutators=None, env0=None):
             al[n] = g
         env["__aliases__"] = al
 
+    def link_by_class(env, n):
+        """`n` was bound by a construct whose value is not followed (a for / with target, an unpacking, a handler, inside a loop or
+        try): it may be any object of its class in alias.groups"""
+        cls_ = set(grp_all.get(n, ())) | _alias.held_closure({n}, grp_all)
+        cls_ = {m for m in cls_ if "." not in m and m not in _MODULE_NAMES} - {n}
+        if cls_:
+            link(env, [n] + sorted(cls_))
+
     def mutate(n, new, env):
         """the object that `n` names changes.  The other names of its alias group MAY be the same object (a view, either arm of
         a conditional, a part): whether they see the change is not known - they become terms that equal no specification
@@ -628,11 +688,59 @@ def _summarize(func, mutators=None, env0=None):
                          "__iadd__", "__isub__", "__imul__", "__itruediv__", "__ifloordiv__", "__imod__", "__ipow__", "__iand__",
                          "__ior__", "__ixor__", "__ilshift__", "__irshift__", "__imatmul__", "__setitem__", "__delitem__", "__setattr__"}
 
+    def lambdas_in(node, env):
+        """a lambda written in the statement may run at any later time and change what it captured: from here on those objects are
+        unknown (as for a nested def)"""
+        for lam in [n for n in ast.walk(node) if isinstance(n, ast.Lambda)]:
+            own = {a.arg for a in ast.walk(lam.args) if isinstance(a, ast.arg)}
+            body = ast.Expr(value=lam.body)
+            captured = (_mutated_names(body) | _inplace_written(body, grp_all)) - own
+            captured |= {c2.func.value.id for c2 in ast.walk(lam.body) if isinstance(c2, ast.Call) and isinstance(c2.func, ast.Attribute)
+                         and isinstance(c2.func.value, ast.Name) and not _alias.reads_only(c2)} - own - _MODULE_NAMES
+            for n in sorted(captured):
+                mutate(n, _call("__mut__", _call("__closure__", ast.Constant("<lambda>")), ast.Constant(n)), env)
+            if captured:
+                env["__tainted__"] = set(env.get("__tainted__", ())) | set(captured)
+
+    def evaluated_parts(st):
+        """expressions a statement evaluates besides its value: index and base expressions of its targets, context managers,
+        default values and decorators of a nested def, the message of an assert, what is raised"""
+        out = []
+        tg = []
+        if isinstance(st, ast.Assign):
+            tg = list(st.targets)
+        elif isinstance(st, (ast.AugAssign, ast.AnnAssign, ast.For, ast.AsyncFor)):
+            tg = [st.target]
+        elif isinstance(st, ast.Delete):
+            tg = list(st.targets)
+        elif isinstance(st, (ast.With, ast.AsyncWith)):
+            tg = [i.optional_vars for i in st.items if i.optional_vars is not None]
+            out.extend(i.context_expr for i in st.items)
+        for t in tg:
+            for x in ast.walk(t):
+                if isinstance(x, ast.Subscript):
+                    out.append(x.slice)
+                if isinstance(x, (ast.Subscript, ast.Attribute)) and isinstance(x.value, (ast.Call, ast.IfExp, ast.BoolOp, ast.NamedExpr)):
+                    out.append(x.value)
+        if isinstance(st, (ast.FunctionDef, ast.AsyncFunctionDef)):
+            out.extend(st.args.defaults)
+            out.extend(d for d in st.args.kw_defaults if d is not None)
+            out.extend(st.decorator_list)
+        if isinstance(st, ast.Assert) and st.msg is not None:
+            out.append(st.msg)
+        if isinstance(st, ast.Raise):
+            out.extend(x for x in (st.exc, st.cause) if x is not None)
+        return out
+
     def effects_in_value(value, env):
         """calls inside an evaluated expression that change a local object in place (`_ = x.__iadd__(1)`, `y = np.add(x, 1, out=x)`,
         `a and x.sort()`, `assert x.pop()`): the objects become terms that record the call"""
         if value is None:
             return
+        for t_ in [n for n in ast.walk(value) if isinstance(n, (ast.Subscript, ast.Attribute)) and isinstance(n.ctx, (ast.Store, ast.Del))]:
+            # a store inside an expression: the target of a comprehension (`[0 for x[0] in (0,)]`)
+            for n in sorted(_alias.roots(t_.value, None, local_callables, None, grp_all.holds) - _MODULE_NAMES):
+                mutate(n, _call("__mut__", _call("__stored_in_expression__", subst(_load(t_), env)), ast.Constant(n)), env)
         for c_ in [n for n in ast.walk(value) if isinstance(n, ast.Call)]:
             touched = []
             if isinstance(c_.func, ast.Attribute) and c_.func.attr in _MUTATING_METHODS:
@@ -645,6 +753,21 @@ def _summarize(func, mutators=None, env0=None):
                 touched.extend(sorted(_alias.roots(o, None, local_callables, None, grp_all.holds) - _MODULE_NAMES))
             if isinstance(c_.func, ast.Name) and isinstance(local_callables, dict) and c_.func.id in local_callables:
                 touched.extend(sorted(set(local_callables[c_.func.id]) - _MODULE_NAMES))
+            every_ = list(c_.args) + [k.value for k in c_.keywords]
+            if not isinstance(c_.func, (ast.Name, ast.Attribute)):
+                # `ms[0](0)` with ms = (x.fill,), `functools.partial(np.ndarray.fill, x)(0)`, `(lambda a: a.fill(0))(x)`: whatever the
+                # callee expression may hold is called, with the arguments
+                for e_ in [c_.func] + every_:
+                    touched.extend(sorted(_alias.roots(e_, None, local_callables, None, grp_all.holds) - _MODULE_NAMES))
+            elif isinstance(c_.func, ast.Attribute) and isinstance(c_.func.value, ast.Call) and c_.func.attr in _MUTATING_METHOD_NAMES:
+                # `type(x).fill(x, 0)`, `operator.methodcaller("fill", 0)(x)`-like: the receiver is computed
+                for e_ in [c_.func.value] + every_:
+                    touched.extend(sorted(_alias.roots(e_, None, local_callables, None, grp_all.holds) - _MODULE_NAMES))
+            elif _unknown_callee(c_) and not _alias.reads_only(c_):
+                # a callee the reference sources never call (`shuffle(x)` after `from random import shuffle`, `xp.copyto(x, 0)`): as for
+                # a discarded call, every object it is handed may change
+                for e_ in every_ + ([c_.func.value] if isinstance(c_.func, ast.Attribute) else []):
+                    touched.extend(sorted(_alias.roots(e_, None, local_callables, None, grp_all.holds) - _MODULE_NAMES))
             if touched:
                 term = subst(c_, env)
                 for n in dict.fromkeys(touched):
@@ -656,6 +779,13 @@ def _summarize(func, mutators=None, env0=None):
         for i, st in enumerate(block):
             if isinstance(st, ast.Expr) and isinstance(st.value, ast.Constant):
                 continue
+            for part_ in evaluated_parts(st):
+                effects_in_value(part_, env)
+            if not isinstance(st, (ast.FunctionDef, ast.AsyncFunctionDef, ast.ClassDef)):
+                shell_ = [ch for ch in ast.iter_child_nodes(st) if isinstance(ch, ast.expr)] + \
+                    [x for it_ in getattr(st, "items", []) for x in (it_.context_expr,)]
+                for ch in shell_:
+                    lambdas_in(ch, env)
             if isinstance(st, (ast.FunctionDef, ast.AsyncFunctionDef)):
                 # a nested function may change what it captured whenever it is called: from here on those objects are unknown
                 own = {a.arg for a in ast.walk(st.args) if isinstance(a, ast.arg)}
@@ -729,6 +859,12 @@ def _summarize(func, mutators=None, env0=None):
                         for a_ in full:
                             sm_[a_] = frozenset(full)
                         env["__same__"] = sm_
+                for t in targets:
+                    if not isinstance(t, ast.Name):
+                        # an unpacking `u, *_ = x, 0`, `u, k = (x, 0) if c else (x, 1)`: the values are not followed one by one
+                        for x_ in ast.walk(t):
+                            if isinstance(x_, ast.Name) and isinstance(x_.ctx, ast.Store):
+                                link_by_class(env, x_.id)
                 effects_in_value(st.value, env)
                 continue
             if isinstance(st, ast.AugAssign):
@@ -750,16 +886,21 @@ def _summarize(func, mutators=None, env0=None):
                         and len(c_.args) == 1 and not c_.keywords and isinstance(env.get(c_.func.value.id), ast.List):
                     cur = env[c_.func.value.id]
                     arg = subst(c_.args[0], env)
+                    effects_in_value(c_.args[0], env)
                     if c_.func.attr == "append":
                         mutate(c_.func.value.id, ast.List(elts=list(cur.elts) + [arg], ctx=ast.Load()), env)
                         continue
                     if isinstance(arg, (ast.List, ast.Tuple)):
                         mutate(c_.func.value.id, ast.List(elts=list(cur.elts) + list(arg.elts), ctx=ast.Load()), env)
                         continue
+                for sub_ in list(c_.args) + [k.value for k in c_.keywords] + ([c_.func.value] if isinstance(c_.func, ast.Attribute) else
+                                                                             [c_.func] if not isinstance(c_.func, ast.Name) else []):
+                    effects_in_value(sub_, env)
                 effect_of_call(c_, env)
                 continue
             if isinstance(st, ast.Expr):
                 # `a and x.sort()`, `x.pop() if c else None`, `[x.append(1)]`: every call in a discarded expression runs for its effect
+                effects_in_value(st.value, env)
                 for c_ in [n for n in ast.walk(st.value) if isinstance(n, ast.Call)]:
                     effect_of_call(c_, env)
                 continue
@@ -778,6 +919,9 @@ def _summarize(func, mutators=None, env0=None):
                 for it in st.items:
                     if it.optional_vars is not None:
                         _bind(it.optional_vars, _call("__enter__", subst(it.context_expr, env)), env)
+                        for x_ in ast.walk(it.optional_vars):
+                            if isinstance(x_, ast.Name):
+                                link_by_class(env, x_.id)
                 return run(list(st.body) + list(block[i + 1:]), env)
             if isinstance(st, ast.If):
                 test = subst(st.test, env)
@@ -822,12 +966,17 @@ def _summarize(func, mutators=None, env0=None):
             # opaque compound statement (loops, try, match)
             if _has_exit([st], loop_level=False):
                 raise Unsupported(f"return inside {type(st).__name__.lower()} at line {getattr(st, 'lineno', '?')}")
-            for n in _assigned_names([st]):
-                env[n] = ast.Name(id=n + "'", ctx=ast.Load())
             # what the block may change in place - through any name that may be the object, aliases made inside the block included
-            for n in (_mutated_names(st) | _inplace_written(st, grp_all)) - _assigned_names([st]):
+            # (the other names of these objects - the parameter's own `@p` among them - see the change: `mutate`)
+            for n in sorted(_mutated_names(st) | _inplace_written(st, grp_all)):
                 if "." not in n:        # (fields of self are pseudo-names of the alias model, not bindings)
-                    env[n] = ast.Name(id=n + "'", ctx=ast.Load())
+                    mutate(n, ast.Name(id=n + "'", ctx=ast.Load()), env)
+            for n in sorted(_assigned_names([st])):
+                unlink(env, n)
+                env[n] = ast.Name(id=n + "'", ctx=ast.Load())
+            # a name bound inside the block may be any object of its (flow-insensitive) class from here on
+            for n in sorted(_assigned_names([st])):
+                link_by_class(env, n)
         return env, None
 
     def _load(t):
@@ -1077,7 +1226,13 @@ def _simplify(c):
         # array of zeros changes nothing in an element-wise `|` (a shape that does not fit the other operands raises at run time)
         def neutral(t):
             want = "np.zeros" if c[0] == "|" else "np.ones"
-            return isinstance(t, tuple) and len(t) == 4 and t[0] == "call" and t[1] == want and ("dtype", "bool") in (t[3] or ())
+            if not (isinstance(t, tuple) and len(t) == 4 and t[0] == "call" and t[1] == want and ("dtype", "bool") in (t[3] or ())):
+                return False
+            # ... of a length / shape taken from the data (`n`, `len(x) - 1`, `x.shape`): a literal shape such as (1, 1) broadcasts the
+            # other operands to a different shape
+            def mentions_name(u):
+                return isinstance(u, str) or isinstance(u, tuple) and u[:1] != ("const",) and any(mentions_name(v) for v in u[1:])
+            return not (isinstance(t[2], tuple) and t[2][:1] == ("tuple",)) and mentions_name(t[2])
         rest = [t for t in c[1:] if not neutral(t)]
         if rest and len(rest) < len(c) - 1:
             if len(rest) == 1:
@@ -1180,7 +1335,7 @@ def _canon(e):
                     else:
                         terms.append(c if sign > 0 else _neg(c))
             flat(e, 1)
-            terms = [t for t in terms if t != ("const", 0)]        # x + 0, x - 0 (the integer zero only: 0.0 changes the dtype)
+            # (a written `+ 0` / `- 0` stays: a boolean mask plus 0 is an integer index array; _simplify adds literals up)
             if len(terms) == 1:
                 return terms[0]
             return ("+",) + tuple(sorted(terms, key=repr))
@@ -1353,7 +1508,7 @@ def calls_under_paths(block, names, env0=None):
     entered without a condition; what they bind becomes unknown."""
     out = []
 
-    def walk(stmts_, env, conds):
+    def walk(stmts_, env, conds, loop_vars=()):
         for k, st in enumerate(stmts_):
             if isinstance(st, (ast.FunctionDef, ast.AsyncFunctionDef, ast.ClassDef)):
                 continue
@@ -1361,8 +1516,8 @@ def calls_under_paths(block, names, env0=None):
                 t = subst(st.test, env)
                 collect(st.test, env, conds)
                 rest = list(stmts_[k + 1:])
-                walk(list(st.body) + rest, dict(env), conds + [t])
-                walk(list(st.orelse) + rest, dict(env), conds + [ast.UnaryOp(op=ast.Not(), operand=copy.deepcopy(t))])
+                walk(list(st.body) + rest, dict(env), conds + [t], loop_vars)
+                walk(list(st.orelse) + rest, dict(env), conds + [ast.UnaryOp(op=ast.Not(), operand=copy.deepcopy(t))], loop_vars)
                 return
             if isinstance(st, (ast.Raise, ast.Return, ast.Continue, ast.Break)):
                 collect(st, env, conds)
@@ -1371,38 +1526,109 @@ def calls_under_paths(block, names, env0=None):
                 for n in _assigned_names([st]):
                     env[n] = ast.Name(id=n + "'", ctx=ast.Load())
                 inner_env = dict(env)
+                inner_vars = tuple(loop_vars)
+                body_conds = list(conds)
+                never = False
                 if isinstance(st, (ast.For, ast.AsyncFor)):
-                    # inside the body the loop variable is the current item: it stands for itself
+                    # inside the body the loop variable is the current item: it stands for itself - unless an enclosing loop of this
+                    # walk uses the same name (then the inner one is a different item: `loc''`)
                     for t in ast.walk(st.target):
                         if isinstance(t, ast.Name):
                             inner_env.pop(t.id, None)
+                            if t.id in loop_vars:
+                                inner_env[t.id] = ast.Name(id=t.id + "''", ctx=ast.Load())
+                            inner_vars += (t.id,)
+                    # a loop over nothing never runs its body
+                    it_ = st.iter
+                    never = isinstance(it_, (ast.Tuple, ast.List, ast.Set)) and not it_.elts or isinstance(it_, ast.Dict) and not it_.keys \
+                        or isinstance(it_, ast.Constant) and it_.value in ("", b"") \
+                        or isinstance(it_, ast.Call) and call_name(it_) == "range" and len(it_.args) == 1 and isinstance(it_.args[0], ast.Constant) \
+                        and isinstance(it_.args[0].value, int) and it_.args[0].value <= 0
+                elif isinstance(st, ast.While):
+                    t_ = subst(st.test, env)
+                    never = _known_truth(t_) is False
+                    if _known_truth(t_) is None:
+                        body_conds = body_conds + [t_]      # the body runs only while the test holds
                 for fld in ("body", "orelse", "finalbody"):
-                    walk(list(getattr(st, fld, []) or []), dict(inner_env), list(conds))
+                    if never and fld == "body":
+                        continue
+                    walk(list(getattr(st, fld, []) or []), dict(inner_env), list(body_conds if fld == "body" else conds), inner_vars)
                 for h in getattr(st, "handlers", []) or []:
-                    walk(list(h.body), dict(env), list(conds))
+                    walk(list(h.body), dict(env), list(conds), loop_vars)
+                if _has_exit([st]):
+                    # the statements that follow run only if the block did not leave (return / raise inside; continue / break of
+                    # the enclosing loop inside a try or with)
+                    conds = conds + [ast.Name(id=f"__fell_through_{type(st).__name__.lower()}__", ctx=ast.Load())]
                 continue
             collect(st, env, conds)
-            if isinstance(st, ast.Assign) and len(st.targets) == 1 and isinstance(st.targets[0], ast.Name):
-                env[st.targets[0].id] = subst(st.value, env)
-            elif isinstance(st, ast.AugAssign) and isinstance(st.target, ast.Name):
+            plain = None
+            if isinstance(st, ast.Assign) and len(st.targets) == 1 and isinstance(st.targets[0], ast.Name) \
+                    and not any(isinstance(x, ast.NamedExpr) for x in ast.walk(st.value)):
+                plain = st.targets[0].id
+                new_ = subst(st.value, env)
+            elif isinstance(st, ast.AugAssign) and isinstance(st.target, ast.Name) and not any(isinstance(x, ast.NamedExpr) for x in ast.walk(st.value)):
+                plain = st.target.id
                 cur = env.get(st.target.id, ast.Name(id=st.target.id, ctx=ast.Load()))
-                env[st.target.id] = ast.BinOp(left=copy.deepcopy(cur), op=st.op, right=subst(st.value, env))
-            else:
-                for n in _assigned_names([st]):
+                new_ = ast.BinOp(left=copy.deepcopy(cur), op=st.op, right=subst(st.value, env))
+            # every other name the statement binds (a walrus inside its value, an import, an unpacking) is unknown from here on ...
+            for n in _assigned_names([st]) - {plain}:
+                env[n] = ast.Name(id=n + "'", ctx=ast.Load())
+            # ... and so is every name whose object the statement may change in place (`orthogonality[:] = ..`, `xs.sort()`, out=)
+            aug_name = isinstance(st, ast.AugAssign) and isinstance(st.target, ast.Name)     # (`defect |= FLAG` on a local: its own update)
+            for n in (set() if aug_name else (_mutated_names(st) | _inplace_written(st, grp_block)) - {plain}):
+                if "." not in n and n not in _MODULE_NAMES:
                     env[n] = ast.Name(id=n + "'", ctx=ast.Load())
+            if plain is not None:
+                env[plain] = new_
 
     def collect(node, env, conds):
         for c in ast.walk(node):
             if isinstance(c, ast.Call) and (call_name(c) or "") in names:
-                # a call in the element of a comprehension runs under the comprehension's filters
+                # names bound where the call stands (comprehension variables, lambda parameters) mean something else than the
+                # enclosing function's locals; the body of a lambda runs later, with the bindings of that time
+                env_c = dict(env)
                 extra = []
-                for comp in ast.walk(node):
-                    if isinstance(comp, (ast.ListComp, ast.SetComp, ast.GeneratorExp, ast.DictComp)) and any(y is c for y in ast.walk(comp)) \
-                            and not any(y is c for g in comp.generators for y in ast.walk(g)):
-                        for g in comp.generators:
-                            extra.extend(subst(t, env) for t in g.ifs)
-                out.append(([copy.deepcopy(x) for x in conds] + extra, subst(c, env)))
-    walk(list(block), dict(env0 or {}), [])
+                for outer in ast.walk(node):
+                    if outer is c or not any(y is c for y in ast.walk(outer)):
+                        continue
+                    if isinstance(outer, (ast.ListComp, ast.SetComp, ast.GeneratorExp, ast.DictComp)):
+                        for g in outer.generators:
+                            for t in ast.walk(g.target):
+                                if isinstance(t, ast.Name):
+                                    env_c.pop(t.id, None)
+                    elif isinstance(outer, ast.Lambda):
+                        for n in all_assigned:
+                            env_c[n] = ast.Name(id=n + "'", ctx=ast.Load())
+                        for a in ast.walk(outer.args):
+                            if isinstance(a, ast.arg):
+                                env_c.pop(a.arg, None)
+                for outer in ast.walk(node):
+                    if outer is c or not any(y is c for y in ast.walk(outer)):
+                        continue
+                    # a call in the element of a comprehension runs under the comprehension's filters
+                    if isinstance(outer, (ast.ListComp, ast.SetComp, ast.GeneratorExp, ast.DictComp)) \
+                            and not any(y is c for g in outer.generators for y in ast.walk(g)):
+                        for g in outer.generators:
+                            extra.extend(subst(t, env_c) for t in g.ifs)
+                    # ... in an arm of a conditional expression / behind `and` / `or` under those tests
+                    elif isinstance(outer, ast.IfExp):
+                        if any(y is c for y in ast.walk(outer.body)):
+                            extra.append(subst(outer.test, env_c))
+                        elif any(y is c for y in ast.walk(outer.orelse)):
+                            extra.append(ast.UnaryOp(op=ast.Not(), operand=subst(outer.test, env_c)))
+                    elif isinstance(outer, ast.BoolOp):
+                        k_ = next((i for i, v in enumerate(outer.values) if any(y is c for y in ast.walk(v))), 0)
+                        for v in outer.values[:k_]:
+                            extra.append(subst(v, env_c) if isinstance(outer.op, ast.And) else ast.UnaryOp(op=ast.Not(), operand=subst(v, env_c)))
+                out.append(([copy.deepcopy(x) for x in conds] + extra, subst(c, env_c)))
+    all_assigned = _assigned_names(list(block))
+    grp_block = _alias.groups(ast.Module(body=list(block), type_ignores=[]))
+    start = dict(env0 or {})
+    # the block may be the body of a loop: a name it assigns may carry the value of the previous iteration where it is read
+    # before its assignment - unknown at the start (an assignment in the block then gives it its value for what follows)
+    for n in sorted(all_assigned):
+        start.setdefault(n, ast.Name(id=n + "'", ctx=ast.Load()))
+    walk(list(block), start, [])
     return out
 
 
@@ -1426,19 +1652,80 @@ def split_conditionals(conds, e):
 _CODE_INDEX = {}
 
 
+def _target_text(t):
+    return ast.unparse(_loaded(t))
+
+
+def store_counts(root):
+    """how often each target (a name, `x[i]`, `obj.a` - as written) is stored in the function, by any construct"""
+    out = {}
+    for n in ast.walk(root):
+        if isinstance(n, (ast.Name, ast.Subscript, ast.Attribute)) and isinstance(getattr(n, "ctx", None), (ast.Store, ast.Del)):
+            k = _target_text(n)
+            out[k] = out.get(k, 0) + 1
+    return out
+
+
+def _dead_ids(root):
+    """ids of the nodes that can never run: statements behind an unconditional return / raise / continue / break of their block,
+    bodies under a test that is false as written (`if False:`, `while 0:`), else-arms under one that is true"""
+    dead = set()
+
+    def kill(stmts_):
+        for st in stmts_:
+            for x in ast.walk(st):
+                dead.add(id(x))
+
+    def block(stmts_):
+        for k, st in enumerate(stmts_):
+            if isinstance(st, (ast.Return, ast.Raise, ast.Continue, ast.Break)):
+                kill(stmts_[k + 1:])
+                break
+            if isinstance(st, (ast.If, ast.While)):
+                kt = _known_truth(st.test) if not isinstance(st.test, ast.Constant) else bool(st.test.value)
+                if kt is False:
+                    kill(st.body)
+                elif kt is True and isinstance(st, ast.If):
+                    kill(st.orelse)
+            for fld in ("body", "orelse", "finalbody"):
+                b = getattr(st, fld, None)
+                if isinstance(b, list) and b and isinstance(b[0], ast.stmt):
+                    block(b)
+            for h in getattr(st, "handlers", []) or []:
+                block(h.body)
+    if isinstance(getattr(root, "body", None), list):
+        block(root.body)
+    return dead
+
+
 def _code_index(root):
     """canonical forms of every sub-expression and of every simple statement under `root` (computed once per node)"""
     hit = _CODE_INDEX.get(id(root))
     if hit is not None and hit[0] is root:
         return hit[1], hit[2]
     exprs, stmts_ = set(), set()
+    dead = _dead_ids(root)
+    # a statement counts only if it is the store the reference had: a target that is stored MORE often than in the reference
+    # function (`operations[mask] = A` followed by a new `operations[mask] = B`) has no statement of its own any more
+    ref_counts = getattr(root, "_ref_store_counts", None)
+    over = set()
+    if ref_counts is not None:
+        now = store_counts(root)
+        over = {t for t, k in now.items() if k > ref_counts.get(t, 0)}
     for n in ast.walk(root):
+        if id(n) in dead:
+            continue
         if isinstance(n, ast.expr):
             try:
                 exprs.add(repr(canon(n)))
             except Exception:
                 pass
         elif isinstance(n, ast.stmt):
+            if over and isinstance(n, (ast.Assign, ast.AugAssign, ast.AnnAssign)):
+                tg = n.targets if isinstance(n, ast.Assign) else [n.target]
+                if any(_target_text(x) in over for t in tg for x in ast.walk(t) if isinstance(x, (ast.Name, ast.Subscript, ast.Attribute))
+                       and isinstance(getattr(x, "ctx", None), (ast.Store, ast.Del))):
+                    continue
             k = _stmt_key(n)
             if k is not None:
                 stmts_.add(k)
@@ -1584,9 +1871,11 @@ def _inplace_written(st, grp=None):
 
     def through(e):
         return _alias.written_through(e, grp)
+    seen_targets = set()
     for n in ast.walk(st):
         if isinstance(n, (ast.Assign, ast.AugAssign, ast.Delete, ast.AnnAssign)):
             for t in (n.targets if isinstance(n, (ast.Assign, ast.Delete)) else [n.target]):
+                seen_targets.update(id(x) for x in ast.walk(t))
                 for x in ([t] if not isinstance(t, (ast.Tuple, ast.List)) else list(ast.walk(t))):
                     if isinstance(x, ast.Attribute) and isinstance(x.ctx, (ast.Store, ast.Del)) and isinstance(x.value, ast.Name) \
                             and x.value.id in ("self", "cls"):
@@ -1603,6 +1892,15 @@ def _inplace_written(st, grp=None):
                     out |= through(n.func.value)
             for o in _out_arguments(n):
                 out |= through(o)
+            if not isinstance(n.func, (ast.Name, ast.Attribute)):
+                # `ms[0](0)` with ms = (x.fill,), `functools.partial(np.ndarray.fill, x)(0)`: whatever the callee expression holds
+                for x in ast.walk(n.func):
+                    if isinstance(x, ast.Name):
+                        out |= (_alias.closure_of({x.id}, grp) | _alias.held_closure({x.id}, grp)) if grp is not None else {x.id}
+        elif isinstance(n, (ast.Subscript, ast.Attribute)) and isinstance(n.ctx, (ast.Store, ast.Del)) and id(n) not in seen_targets:
+            # the target of a for / with / comprehension / walrus
+            if not (isinstance(n, ast.Attribute) and isinstance(n.value, ast.Name) and n.value.id in ("self", "cls")):
+                out |= through(n.value)
     return out - _MODULE_NAMES
 
 
@@ -1617,10 +1915,12 @@ def _out_arguments(c_):
         outs.append(c_.args[0])
     if isinstance(c_.func, ast.Attribute) and c_.func.attr == "shuffle" and c_.args:
         outs.append(c_.args[0])             # rng.shuffle(x), random.shuffle(x), np.random.default_rng(0).shuffle(x)
-    if is_np and len(c_.args) >= 3 and last in _UFUNCS2 and last != "clip":
+    if is_np and len(c_.args) >= 3 and last in _UFUNCS2 and last not in _NP_OUT_POS:
         outs.append(c_.args[2])
-    if is_np and last == "clip" and len(c_.args) >= 4:
-        outs.append(c_.args[3])
+    if is_np and last in _NP_OUT_POS and len(c_.args) > _NP_OUT_POS[last]:
+        outs.extend(c_.args[_NP_OUT_POS[last]:_NP_OUT_POS[last] + (2 if last in ("divmod", "modf", "frexp") else 1)])
+    if is_np and last == "nan_to_num" and (len(c_.args) >= 2 or any(k.arg == "copy" for k in c_.keywords)) and c_.args:
+        outs.append(c_.args[0])             # np.nan_to_num(x, copy=False) works in place
     if is_np and len(c_.args) >= 2 and last in _UFUNCS1 and last != "copyto":
         outs.append(c_.args[1])
     if fn in ("setattr", "delattr", "object.__setattr__", "object.__delattr__") and c_.args:
